@@ -20,7 +20,7 @@ import (
 //
 // Every assignment, increment or delete whose target is reached THROUGH A POINTER (or a map) to a struct type
 // declared in the nfpm module – *nfpm.Info, *files.Content, *files.ContentFileInfo, … – is recorded as
-// (package, function, "Type.field.path").  The table is computed from go/types information, so it does not depend on
+// (package, exported functions of the package it is reachable from, "Type.field.path").  The table is computed from go/types information, so it does not depend on
 // how variables are named (a renamed local neither hides a write nor changes the table); moving a write into another
 // function, or writing a field that was not written before, changes it.
 
@@ -178,6 +178,66 @@ func genInPlace() (string, error) {
 		if r == "" {
 			pkgName = "nfpm"
 		}
+		// a write is attributed to the exported functions of its package from which it can be reached through the
+		// package's own calls (static references), not to the function it textually sits in: extracting a helper or
+		// inlining one leaves the attribution unchanged, a write in a new place of the call graph changes it
+		decls := map[*types.Func]*ast.FuncDecl{}
+		for _, f := range asts[r] {
+			for _, d := range f.Decls {
+				if fd, ok := d.(*ast.FuncDecl); ok && fd.Body != nil {
+					if fn, ok := info.Defs[fd.Name].(*types.Func); ok {
+						decls[fn] = fd
+					}
+				}
+			}
+		}
+		edges := map[*types.Func][]*types.Func{}
+		for fn, fd := range decls {
+			ast.Inspect(fd.Body, func(n ast.Node) bool {
+				if id, ok := n.(*ast.Ident); ok {
+					if callee, ok := info.Uses[id].(*types.Func); ok {
+						if _, local := decls[callee]; local {
+							edges[fn] = append(edges[fn], callee)
+						}
+					}
+				}
+				return true
+			})
+		}
+		owners := map[*types.Func]map[string]bool{}
+		for e, efd := range decls {
+			if !efd.Name.IsExported() {
+				continue
+			}
+			seen := map[*types.Func]bool{}
+			var dfs func(x *types.Func)
+			dfs = func(x *types.Func) {
+				if seen[x] {
+					return
+				}
+				seen[x] = true
+				if owners[x] == nil {
+					owners[x] = map[string]bool{}
+				}
+				owners[x][efd.Name.Name] = true
+				for _, y := range edges[x] {
+					dfs(y)
+				}
+			}
+			dfs(e)
+		}
+		ownerName := func(fd *ast.FuncDecl) string {
+			fn, _ := info.Defs[fd.Name].(*types.Func)
+			var names []string
+			for n := range owners[fn] {
+				names = append(names, n)
+			}
+			if len(names) == 0 {
+				return fd.Name.Name
+			}
+			sort.Strings(names)
+			return strings.Join(names, "|")
+		}
 		for _, f := range asts[r] {
 			for _, d := range f.Decls {
 				fd, ok := d.(*ast.FuncDecl)
@@ -192,7 +252,7 @@ func genInPlace() (string, error) {
 						if wrap != "" {
 							t = wrap + "(" + t + ")"
 						}
-						rows = append(rows, row{pkgName, fd.Name.Name, t})
+						rows = append(rows, row{pkgName, ownerName(fd), t})
 					}
 				}
 				ast.Inspect(fd.Body, func(n ast.Node) bool {
@@ -238,7 +298,7 @@ func genInPlace() (string, error) {
 	}
 	var b strings.Builder
 	b.WriteString("import NfpmModel.Bytes\nnamespace Nfpm.Generated\nopen Nfpm\n")
-	b.WriteString("/-- every assignment (or delete) that reaches its target through a pointer or map to one of nfpm's own struct types: (package, function, Type.field.path) -/\n")
+	b.WriteString("/-- every assignment (or delete) that reaches its target through a pointer or map to one of nfpm's own struct types: (package, exported functions it is reachable from, Type.field.path) -/\n")
 	b.WriteString("def inPlaceWrites : List (Bytes × Bytes × Bytes) := [\n")
 	for i, r := range out {
 		sep := ","
